@@ -18,6 +18,10 @@ var corpusDocs = []string{
 	`query($v: Alpha = 1){i}`,
 	`query($v:Int){cmp(ins:{r:$v}, b:true)}`,
 	`{a:i a:s b:i b:s}`,
+	`query($v:Int){cmp(any:{a:$v}, b:true)}`,
+	`query($v:Int){cmp(any:[$v], b:true)}`,
+	`query($v:Int){cmp(oo:{a:$v}, b:true)}`,
+	`query($v:Int){cmp(oo:[[$v]], b:true)}`,
 }
 
 func generate(h *hx.H) {
